@@ -1,6 +1,7 @@
 package main
 
 import (
+	"go/token"
 	"go/types"
 	"sort"
 	"strings"
@@ -100,38 +101,16 @@ func runC11(r *Report, p *Program) {
 	}
 	c11R6(h)
 	// R3: validate and start agree
-	r.Rule("R3", "validate and start agree: in executeDirectives no condition mentioning justValidate guards, skips or cuts short the call of a directive's setup function; justValidate otherwise only selects the throw-away instance and guards the parsing callbacks; casketmain's -validate path and Start both go through ValidateAndExecuteDirectives", 3)
-	if ex := h.fn("R3", "", "executeDirectives"); ex != nil {
-		n := 0
-		allInstrs(ex, func(in ssa.Instruction) {
-			c := callOf(in)
-			if c == nil || c.IsInvoke() || c.StaticCallee() != nil {
-				return
-			}
-			if derives(c.Value, func(v ssa.Value) bool { return isResultOf(v, 0, modPath+".DirectiveAction") }, flowOpts{}) {
-				n++
-				r.Check(!guardedByJustValidate(ex, in), "R3", "casket.executeDirectives/setup-independent-of-justValidate", in.Pos(), "every setup call a real start makes is also made by -validate")
-				// data dependence: how often the enclosing loops run, and what the call is given, must not be selected
-				// by justValidate either (e.g. ranging over a key list that validation shortens)
-				var deps []string
-				for _, hd := range enclosingHeaders(in.Block()) {
-					if hif, ok := lastInstr(hd).(*ssa.If); ok {
-						if what, dep := selectedByJustValidate(ex, hif.Cond); dep {
-							deps = append(deps, "trip count of the loop at "+h.p.Pos(hif.Pos())+" depends on "+what)
-						}
-					}
-				}
-				for _, a := range c.Args {
-					if what, dep := selectedByJustValidate(ex, a); dep {
-						deps = append(deps, "argument depends on "+what)
-					}
-				}
-				r.Check(len(deps) == 0, "R3", "casket.executeDirectives/setup-loops-independent-of-justValidate", in.Pos(), "the loops around the setup call run over the same server blocks, directives and keys whether validating or starting", deps...)
-			}
-		})
-		if n == 0 {
-			r.Unresolve("R3", "executeDirectives: setup call not found")
+	r.Rule("R3", "validate and start agree (E10 traces of executeDirectives, validating and not): the same setup calls are made in the same order, and justValidate only switches the parsing callbacks off; casketmain's -validate path and Start both go through ValidateAndExecuteDirectives", 3)
+	{
+		// decided from the traces of executeDirectives (E10, execTraces): the setup calls of a validating run and of
+		// a real start are the same, in the same order
+		t := execTraces(h)
+		var pos token.Pos
+		if ex := h.p.Func("", "executeDirectives"); ex != nil {
+			pos = ex.Pos()
 		}
+		r.Check(t.validate == "" && t.order == "" && t.other == "", "R3", "casket.executeDirectives/setup-independent-of-justValidate", pos, "every setup call a real start makes is also made by -validate", sprintf("%d runs evaluated", t.n), t.validate, t.order, t.other)
 	}
 	for _, spec := range [][2]string{{"", "startWithListenerFds"}, {"casket/casketmain", "Run"}} {
 		fn := h.fn("R3", spec[0], spec[1])
